@@ -688,6 +688,8 @@ pub fn rust_attrs(path: &str) -> Result<BTreeMap<String, Vec<RustField>>, String
         let prefix = mods.iter().map(|m| m.0.clone()).collect::<Vec<_>>().join("::");
         let qualify = |n: &str| if prefix.is_empty() { n.to_string() } else { format!("{prefix}::{n}") };
         if let Some(rest) = l.strip_prefix("pub struct ").or_else(|| l.strip_prefix("pub enum ")) {
+            // an attribute in front of a type (e.g. #[prost(skip_debug)]) is not a field attribute
+            pending = None;
             let name = rest.split(|c: char| !c.is_alphanumeric() && c != '_').next().unwrap_or("").to_string();
             cur = Some((qualify(&name), depth));
             out.entry(qualify(&name)).or_default();
